@@ -152,7 +152,7 @@ def run(run, thorough):
         if r == 'ok' and not res['steps'][0].get('exc'):
             jobs.append(('put', 'x', res['steps'][0], {'scenario': scn, 'plan': plans[i]}))
     engine.run_monitors(run, 'put-monitor', jobs, 'the put-discipline monitor (Coq, C17) rejects the faulted implementation trace: dishonest report '
-                        'or payload before info', 'put-discipline-under-faults')
+                        'or payload before info', 'put-discipline-under-faults', silent=True)
     if faulted:
         run.sample({'level': 'fault', 'argv': [esc(a) for a in faulted[0]['steps'][0]['argv']], 'plan': plans[0]})
         run.notes.append('faulted runs: %d over %d base scenarios' % (len(faulted), len(bases)))
